@@ -283,7 +283,8 @@ PROPS["C31"] = dict(
 # --------------------------------------------------------------------------- C32
 import jobs_c32
 PROPS["C32"] = dict(
-    functions=["revm_primitives::calc_excess_blob_gas", "revm_primitives::fake_exponential", "revm_primitives::calc_blob_gasprice (crates/primitives/src/utilities.rs)"],
+    functions=["revm_primitives::calc_excess_blob_gas", "revm_primitives::fake_exponential", "revm_primitives::calc_blob_gasprice (crates/primitives/src/utilities.rs)",
+               "revm_primitives::BlockEnv::set_blob_excess_gas_and_price, BlobExcessGasAndPrice::new (crates/primitives/src/env.rs)"],
     bounds="calc_excess_blob_gas: all u64 triples (Kani). calc_blob_gasprice: all excess <= update fraction per schedule, unwind 14 (Kani). "
            "fake_exponential (MIR->SMT, z3+cvc5): factor 1, both update fractions, ALL numerators 0..=N0 where N0+1 is the first numerator whose exact "
            "intermediates leave u128 (192204552 Cancun / 284284038 Prague): per-iteration inductive certificate (K<=168 iterations), loop body == EIP-4844 step, "
@@ -298,6 +299,8 @@ PROPS["C32"] = dict(
         H("c32::c32_constants", bounds="constants + zero excess"),
         H("c32::c32_price_cancun_le_fraction", bounds="excess <= 3338477, unwind 14", timeout=1500),
         H("c32::c32_price_prague_le_fraction", bounds="excess <= 5007716, unwind 14", timeout=1500),
+        H("c32::c32_block_env_price_follows_last_setting", bounds="BlockEnv::set_blob_excess_gas_and_price twice on one env, all (excess, schedule) pairs; price function stubbed injectively",
+          stubs_expected=["calc_blob_gasprice"]),
         H("c32::c32_twin_must_fail", expect_fail=True, bounds="vacuity twin"),
     ],
     jobs=[dict(name="e2::fake_exponential_certificate", fn=jobs_c32.run)],
